@@ -318,6 +318,23 @@ CHECKS["C07"] = dict(
     technique="Lean 4 theorem (alpha-equivalence of the two parsed formulas implies equal meaning under all interpretations) + round-trip differential on generated constraints",
 )
 
+CHECKS["C08"] = dict(
+    category="proof",
+    text="Proved for EVERY interpretation of atoms / quantifier domains and every environment, over the combinators of C09 (exact transcriptions "
+    "of Formula.__neg__/__and__/__or__): implies / iff / xor as the emitter builds them (-a | b, (-a & -b) | (a & b), (a & -b) | (-a & b)) mean "
+    "implication, equivalence and exclusive or (implies_law, iff_law, xor_law); pushing the closing universal quantifier of a free nonterminal "
+    "into a disjunction is sound (pushin_or), into a conjunction exactly when the quantifier's domain is not empty (pushin_and, pushin_and_mp) - "
+    "with a proved counterexample for the empty domain (pushin_and_counterexample = the known finding). Tie: sugared constraints (free "
+    "nonterminals, omitted in / names, XPath child / index / descendant axes, infix vs prefix, negative literals, derived connectives, closure "
+    "in propositional combinations) and their HAND-EXPANDED core forms written from the documentation are evaluated on random trees: "
+    "evaluate(sugared) must equal the verified reference evaluator's verdict on the core form.",
+    design_ref="DESIGN.md section 7 C08",
+    note="PARTIAL: XPath elimination, default in-variable and fresh names are validated per template instance (31 templates x random parameters x "
+    "trees), not proved; the hand-expanded core forms are part of the trusted base. Known finding: closure pushed into conjunctions differs from "
+    "the documented top-level closure over an empty domain.",
+    technique="Lean 4 theorems (derived connectives, quantifier push-in laws + proved counterexample) + differential evaluation of sugared vs hand-expanded core constraints against the verified reference",
+)
+
 NOT_APPLICABLE = {
     "C22": "reproducibility across fresh processes depends on hash randomisation, Z3 seeds/timeouts and wall-clock time; a functional Lean model would prove determinism vacuously and no executable model can exhibit the failure (DESIGN.md section 8)",
 }
